@@ -72,8 +72,9 @@ func genL1Action(rt *rapid.T, w *l1World, maxClients int) l1Action {
 			if d == nil {
 				continue
 			}
-			// subscribers discard local operations made before their first sync (by design)
-			if d.entered || d.mode == "create" {
+			// subscribers discard local operations made before their first sync (by design): such
+			// operations must vanish on the client and must not reach the log; generated less often
+			if d.entered || d.mode == "create" || x%5 == 0 {
 				names = append(names, i)
 			}
 		}
@@ -153,8 +154,10 @@ func (w *l1World) applyL1(a l1Action) error {
 		if res.Panic != nil {
 			return fmt.Errorf("local call panicked: %v", res.Panic)
 		}
-		if !d.entered {
+		if !d.entered && d.mode == "create" {
 			w.labels["local-op-before-first-sync(creator)"] = true
+		} else if !d.entered {
+			w.labels["local-op-before-first-sync(subscriber)"] = true
 		}
 	case "tx":
 		c := w.clients[a.C]
